@@ -8,7 +8,7 @@ from bounded.util import Collector, classify_exception
 
 # ---------------------------------------------------------------- own term representation
 # ('v', name) | ('c', text) for atomic constants (text is Prolog syntax) | ('f', functor, [args])
-ATOMS = ["a", "b", "1", "1.0", "'A b'", "\"s\"", "[]"]
+ATOMS = ["a", "b", "1", "1.0", "'A b'", "\"s\"", "[]", "'a'"]
 VARS = ["X", "Y", "Z"]
 
 
@@ -48,6 +48,26 @@ def occurs(v, t, s):
     return False
 
 
+def cnorm(t):
+    """'a' and a are two spellings of one atom (quotes that are not needed)."""
+    if not STRICT and t[0] == "c" and re.fullmatch(r"'[a-z][A-Za-z0-9_]*'", t[1]):
+        return ("c", t[1][1:-1])
+    return t
+
+
+STRICT = False
+
+
+def unifiable_only_modulo_quotes(t1, t2):
+    """The terms unify, but only because 'a' and a are the same atom."""
+    global STRICT
+    STRICT = True
+    try:
+        return mgu(t1, t2, {}) is None
+    finally:
+        STRICT = False
+
+
 def mgu(t1, t2, s):
     """Robinson unification with occurs check -> substitution or None."""
     t1, t2 = walk(t1, s), walk(t2, s)
@@ -62,7 +82,7 @@ def mgu(t1, t2, s):
     if t2[0] == "v":
         return mgu(t2, t1, s)
     if t1[0] == "c" or t2[0] == "c":
-        return s if t1 == t2 else None
+        return s if cnorm(t1) == cnorm(t2) else None
     if t1[1] != t2[1] or len(t1[2]) != len(t2[2]):
         return None
     for a, b in zip(t1[2], t2[2]):
@@ -85,7 +105,7 @@ def unifiable_without_occurs_check(t1, t2):
         if t2[0] == "v":
             return m(t2, t1, s)
         if t1[0] == "c" or t2[0] == "c":
-            return s if t1 == t2 else None
+            return s if cnorm(t1) == cnorm(t2) else None
         if t1[1] != t2[1] or len(t1[2]) != len(t2[2]):
             return None
         for a, b in zip(t1[2], t2[2]):
@@ -112,6 +132,8 @@ def canon(text):
     # unbound variables of an answer are printed as negative integers by engine.query (the family has no
     # negative numbers), bound-but-free ones as X1, X2, ...
     for tok in re.findall(r"'[^']*'|\"[^\"]*\"|-\d+|[A-Za-z_][A-Za-z0-9_]*|.", text):
+        if re.fullmatch(r"'[a-z][A-Za-z0-9_]*'", tok):
+            tok = tok[1:-1]
         if ((tok[0].isupper() or tok[0] == "_") and tok[0] not in "'\"") or re.fullmatch(r"-\d+", tok):
             names.setdefault(tok, "V%d" % len(names))
             out.append(names[tok])
@@ -177,7 +199,8 @@ def check_unify(payload):
                                           % (progs_[k], r, " (occurs check)" if occurs_only else "")))
         else:
             if len(r) != 1:
-                out["violations"].append((k + ":fails-with-unifier", "%s has %d answers, the terms unify" % (progs_[k], len(r))))
+                q = ":quoted-atom" if unifiable_only_modulo_quotes(lhs, t2) else ""
+                out["violations"].append((k + ":fails-with-unifier" + q, "%s has %d answers, the terms unify" % (progs_[k], len(r))))
             else:
                 # the printed answer does not show which variables of different arguments are shared (an
                 # unbound argument prints as a number, the same variable inside a term as X1): compare each
@@ -272,10 +295,47 @@ def run_c14(tier, seed):
     pairs += list(itertools.product(small, repeat=2))           # bounded-exhaustive core
     while len(pairs) < n:
         pairs.append((gen_term(rng, 2), gen_term(rng, 2)))
-    col = Collector("C14:unification", "%d pairs of terms (all pairs of %d core terms, then seeded random terms of depth <= 2 over "
-                    "atoms %s, variables X,Y,Z with repeats, f/1, g/2, lists) through =/2, \\=/2 and clause-head matching, "
+    # wide flat terms with repeated variables on both sides (k/3, k/4 over variables, constants and f(Var)): chains of
+    # aliases, and cycles that only close over several argument positions
+    def flat(rng, arity):
+        def arg():
+            r = rng.random()
+            if r < 0.55:
+                return ("v", rng.choice(VARS))
+            if r < 0.85:
+                return ("f", "f", [("v", rng.choice(VARS))])
+            return ("c", rng.choice(["a", "b"]))
+        return ("f", "k", [arg() for _ in range(arity)])
+    for _ in range(n // 2):
+        ar = rng.choice([3, 4])
+        pairs.append((flat(rng, ar), flat(rng, ar)))
+    # pairs whose only obstacle is the occurs check (for =/2, or for head matching where the head is renamed apart),
+    # found by rejection sampling against the reference
+    def rename_h(t):
+        if t[0] == "v":
+            return ("v", t[1] + "h")
+        if t[0] == "f":
+            return ("f", t[1], [rename_h(a) for a in t[2]])
+        return t
+    want, tries = n // 4, 0
+    while want and tries < 200000:
+        tries += 1
+        if rng.random() < 0.5:
+            ar = rng.choice([2, 3, 4])
+            t1, t2 = flat(rng, ar), flat(rng, ar)
+        else:
+            t1, t2 = gen_term(rng, 3), gen_term(rng, 3)
+        for lhs in (t1, rename_h(t1)):
+            if mgu(lhs, t2, {}) is None and unifiable_without_occurs_check(lhs, t2):
+                pairs.append((t1, t2))
+                want -= 1
+                break
+    col = Collector("C14:unification", "%d pairs of terms (all pairs of %d core terms; seeded random terms of depth <= 2 over "
+                    "atoms %s, variables X,Y,Z with repeats, f/1, g/2, lists; flat k/3 and k/4 terms over variables, f(Var) and "
+                    "constants with repeats on both sides; and pairs selected by rejection sampling whose only obstacle is the "
+                    "occurs check) through =/2, \\=/2 and clause-head matching, "
                     "against a reference Robinson unifier with occurs check; answers compared up to variable renaming; "
-                    "distinct = term pairs; non-trivial = a non-empty mgu" % (n, len(small), ATOMS))
+                    "distinct = term pairs; non-trivial = a non-empty mgu" % (len(pairs), len(small), ATOMS))
     for r in pmap("bounded.c14.check_unify", pairs):
         col.case(r["case"], nontrivial=r["nontrivial"])
         for name, text in r["violations"]:
